@@ -143,7 +143,7 @@ fn single_page_case(type_byte: u8, fk: Option<usize>, fv: Option<usize>) {
     core::mem::forget(tree);
 }
 
-// @harness props=C12 tier=thorough timeout=7200 mem=40 stubbing=1 flavor=nodebug replay=scenario:page_alter
+// @harness props=C12 tier=thorough timeout=3600 mem=40 stubbing=1 flavor=nodebug replay=scenario:page_alter attempt=1
 // @desc (attempted: did not close in 1800 s in the quick tier) RawBtree::verify_checksum on a two-level tree (branch root built by the real builder with arbitrary stored child checksums and separator, two child pages with ARBITRARY contents after a concrete type byte): Ok(true) only if the root's checksum equals the header's AND each child is a leaf whose checksum can be computed and equals the checksum the branch stores for it; every child is fetched (visited) when the root verifies
 // @functions RawBtree::{verify_checksum,verify_checksum_helper}, branch_checksum, leaf_checksum, BranchAccessor::{child_page,child_checksum,count_children}
 // @bound depth 2, one separator (2 bytes, variable width keys), two 64-byte children with arbitrary bytes (not branches), arbitrary stored checksums; profile without debug assertions
